@@ -30,7 +30,9 @@ RULE = (
     "case kinds: roundtrip = one seeded network (class = idx mod 3; <= 7 nodes, <= 7 edges; isolated nodes, empty edges, multi-edges, "
     "explicit/automatic IDs of 7 kinds, node/edge/network attributes) sent through every converter pair applicable to its class "
     "(hyperedge list, hyperedge dict, bipartite edge list, incidence matrix labelled+positional x sparse/dense, bipartite graph, dataframe, "
-    "standard dict x casts, HIF dict x casts); graph-order = one bipartite (di)graph drawn from such a network, rebuilt under 5 vertex-insertion "
+    "standard dict x casts, HIF dict x casts; complexes also: maximal simplices via from_max_simplices and back through SimplicialComplex(...), hyperedge list with a "
+    "non-truncating and a truncating max_order; list/dict readers with create_using omitted / class / fresh instance of the source's class and through the constructors and "
+    "to_* functions); graph-order = one bipartite (di)graph drawn from such a network, rebuilt under 5 vertex-insertion "
     "orders x 3 pair orientations (x dual); class = the class-to-class and same-class constructors; collide = to_hypergraph_dict on IDs whose "
     "string casts collide. second-call monitors: every other roundtrip/class case edits the source in place through the public API (ID sets kept where the class "
     "allows) and converts the same object again; 30 % of the from_* calls are repeated on the same representation object after the first result was defaced. "
@@ -47,6 +49,10 @@ ASSUMPTIONS = [
     "an exception raised by either direction of a pair is a violation (clause 'raises'), except the documented XGIError of to_hypergraph_dict when two IDs have the same string cast, which is demanded",
     "to_dihypergraph called without create_using is monitored as its own call site (to_dihypergraph|create_using-omitted); DiHypergraph(list|dict) and from_hyperedge_list|dict(create_using=DiHypergraph) report under the pair",
     "a SimplicialComplex sent through a dataframe back into a SimplicialComplex is compared as a family of member sets (the documented reader assigns new IDs); back into a Hypergraph it is compared under labels",
+    "from_max_simplices(S): exactly S's node set, exactly the brute-force maximal member sets as edges (each once), no attribute is demanded (the docstring promises none); the complex "
+    "built from it must hold S's simplices again except 0-simplices that are faces of larger simplices (the class generates faces of size >= 2 only, so these cannot come back)",
+    "from_hyperedge_list(max_order=k) on the list of a complex: k >= largest order present must change nothing; k below: every listed simplex of size 2..k+1 and nothing else of size >= 2 "
+    "(docstring of add_simplices_from: 'creates and adds all its subfaces up to max_order'), listed 0-simplices kept, nothing demanded about further 0-simplices",
     "class-to-class: edge identity is the edge ID when the target is a (Di)Hypergraph, the member set when the target is a SimplicialComplex; edge attributes are required only for source edges with a unique, non-empty member set; no claim that the target has nothing else (C07)",
     "attribute values are compared type-strictly (1, 1.0, True differ); labels by ==/hash",
 ]
@@ -58,6 +64,13 @@ AGAIN_TO = "converted-again-after-in-place-mutation"      # to_* on an object th
 AGAIN_FROM = "from-called-again-after-first-result-changed"  # from_* on the same representation object after the first result was defaced
 ORDERS = ("node-vertices-first", "edge-vertices-first", "interleaved", "shuffled", "incidences-first")
 ORIENT = ("node-edge", "edge-node", "mixed")
+HOW_DICT = {
+    "DiHypergraph": ("from_hyperedge_dict(create_using=DiHypergraph)", "from_hyperedge_dict(create_using=DiHypergraph())", "DiHypergraph(dict)", "to_dihypergraph(dict)"),
+    "Hypergraph": ("from_hyperedge_dict", "from_hyperedge_dict(create_using=Hypergraph)", "from_hyperedge_dict(create_using=Hypergraph())", "Hypergraph(dict)", "to_hypergraph(dict)"),
+    "SimplicialComplex": ("from_hyperedge_dict", "from_hyperedge_dict(create_using=SimplicialComplex)", "from_hyperedge_dict(create_using=SimplicialComplex())",
+                          "SimplicialComplex(dict)", "from_simplex_dict", "from_simplex_dict(create_using=SimplicialComplex)",
+                          "from_simplex_dict(create_using=SimplicialComplex())", "to_simplicial_complex(dict)"),
+}
 
 
 def plan(tier):
@@ -69,30 +82,49 @@ def plan(tier):
 PAIRS = {
     "hyperedge_list": O.CLASSES, "hyperedge_dict": O.CLASSES, "bipartite_edgelist": O.CLASSES, "bipartite_graph": O.CLASSES,
     "hif_dict": O.CLASSES, "incidence_matrix": UND, "dataframe": UND, "hypergraph_dict": UND,
+    "max_simplices": ("SimplicialComplex",),
 }
 C2C = ("Hypergraph(Hypergraph)", "Hypergraph(DiHypergraph)", "Hypergraph(SimplicialComplex)", "SimplicialComplex(Hypergraph)",
        "SimplicialComplex(SimplicialComplex)", "DiHypergraph(DiHypergraph)")
 
 
 def floors(tier):
-    """Quick floors are 50-75 % of what every seed shows on a tree without open findings; thorough = 35 x quick for 40 x the cases."""
+    """Quick floors are at most half of what seed 0 shows on a tree without open findings (every seed keeps a margin of about 2 x); thorough = 35 x quick for 40 x the cases."""
     k = 1 if tier == "quick" else 35
     f = {}
     for p, classes in PAIRS.items():
         for c in classes:
-            f[f"pair:{p}:{c}"] = 1300 * k
+            f[f"pair:{p}:{c}"] = 850 * k
     for c in C2C:
-        f[f"class:{c}"] = 350 * k
+        f[f"class:{c}"] = 220 * k
     for o in ORDERS:
-        f[f"graph-order:{o}"] = 300 * k
+        f[f"graph-order:{o}"] = 230 * k
+    for v in sorted({v for vs in HOW_DICT.values() for v in vs}):
+        f[f"variant:hyperedge_dict:{v}"] = 90 * k
     f.update({
-        "graph-order:directed": 800 * k, "graph-order:dual": 350 * k,
-        "graph-trigger:edge-vertices-inserted-first": 800 * k, "graph-trigger:node-vertices-inserted-first": 400 * k,
-        "feat:isolated-node": 700 * k, "feat:empty-edge": 1000 * k, "feat:multi-edge": 1200 * k, "feat:explicit-id": 4000 * k,
-        "feat:node-attrs": 2000 * k, "feat:edge-attrs": 3000 * k, "feat:net-attrs": 2000 * k,
-        "cast:int": 1000 * k, "cast:none-str": 1000 * k, "hif:class-checked": 4500 * k,
-        f"again:{AGAIN_TO}": 12000 * k, f"again:{AGAIN_FROM}": 6000 * k, "again:mutated-in-place": 2500 * k,
-        "rejected:colliding-cast": 200 if tier == "quick" else 2500,
+        "graph-order:directed": 560 * k,
+        "graph-order:dual": 280 * k,
+        "graph-trigger:edge-vertices-inserted-first": 810 * k,
+        "graph-trigger:node-vertices-inserted-first": 310 * k,
+        "feat:isolated-node": 580 * k,
+        "feat:empty-edge": 1000 * k,
+        "feat:multi-edge": 1100 * k,
+        "feat:explicit-id": 3800 * k,
+        "feat:node-attrs": 2100 * k,
+        "feat:edge-attrs": 2700 * k,
+        "feat:net-attrs": 1900 * k,
+        "cast:int": 1100 * k,
+        "cast:none-str": 1900 * k,
+        "hif:class-checked": 2500 * k,
+        f"again:{AGAIN_TO}": 11000 * k,
+        f"again:{AGAIN_FROM}": 5900 * k,
+        "again:mutated-in-place": 1800 * k,
+        "feat:maximal-0-simplex": 180 * k,
+        "feat:0-simplex-that-is-a-face": 320 * k,
+        "eval:max_simplices-into-complex": 840 * k,
+        "variant:from_hyperedge_list:max_order-not-truncating": 310 * k,
+        "variant:from_hyperedge_list:max_order-truncating": 310 * k,
+        "rejected:colliding-cast": 180 if tier == "quick" else 2400,
     })
     return f
 
@@ -171,11 +203,18 @@ NAMES = {
     "dataframe": "to_bipartite_pandas_dataframe/from_bipartite_pandas_dataframe",
     "hypergraph_dict": "to_hypergraph_dict/from_hypergraph_dict",
     "hif_dict": "to_hif_dict/from_hif_dict",
+    "max_simplices": "from_max_simplices",
 }
 
 
 def _cls(name):
     return getattr(xgi, name)
+
+
+def _cu(how):
+    """create_using argument encoded in a variant name: '...(create_using=Cls)' -> the class, '...(create_using=Cls())' -> a fresh instance."""
+    arg = how[how.index("create_using=") + len("create_using="):-1]
+    return _cls(arg[:-2])() if arg.endswith("()") else _cls(arg)
 
 
 def _pos_obs(o):
@@ -188,29 +227,39 @@ def p_hyperedge_list(c, rng):
     net, src = c.net, c.src
     if src.directed:
         lst = net.edges.dimembers()
-        how = rng.choice(("DiHypergraph(list)", "from_hyperedge_list(create_using=DiHypergraph)", "to_dihypergraph(list)"))
+        how = rng.choice(("DiHypergraph(list)", "from_hyperedge_list(create_using=DiHypergraph)", "from_hyperedge_list(create_using=DiHypergraph())", "to_dihypergraph(list)"))
         first_empty = bool(lst) and not lst[0][0] and not lst[0][1]
     else:
         lst = xgi.to_hyperedge_list(net)
         if src.cls == "Hypergraph":
-            how = rng.choice(("from_hyperedge_list", "Hypergraph(list)", "from_hyperedge_list(create_using=Hypergraph)", "to_hypergraph(list)"))
+            how = rng.choice(("from_hyperedge_list", "Hypergraph(list)", "from_hyperedge_list(create_using=Hypergraph)", "from_hyperedge_list(create_using=Hypergraph())",
+                              "to_hypergraph(list)"))
         else:
-            how = rng.choice(("from_hyperedge_list", "SimplicialComplex(list)", "from_hyperedge_list(create_using=SimplicialComplex)"))
+            how = rng.choice(("from_hyperedge_list", "SimplicialComplex(list)", "from_hyperedge_list(create_using=SimplicialComplex)",
+                              "from_hyperedge_list(create_using=SimplicialComplex())", "to_simplicial_complex(list)"))
         first_empty = bool(lst) and not lst[0]
     trigger = "empty-first-edge" if first_empty else src.cls
     name = NAMES["hyperedge_list"]
     if how == "to_dihypergraph(list)":  # the documented function with its default create_using: its own call site
         name, trigger = "to_dihypergraph", "create_using-omitted"
+    # max_order (complexes only): a bound that does not truncate must change nothing
+    top = max((len(m) for m in src.mem.values()), default=1) - 1 if not src.directed else 0
+    mo = {}
+    if src.cls == "SimplicialComplex" and how.startswith("from_hyperedge_list(create_using=") and rng.random() < 0.5:
+        mo = {"max_order": top + rng.randint(0, 2)}
+        how += f" max_order={mo['max_order']} (largest order present: {top})"
 
     def make():
         if how == "from_hyperedge_list":
             return xgi.from_hyperedge_list(lst)
         if how.startswith("from_hyperedge_list(create_using="):
-            return xgi.from_hyperedge_list(lst, create_using=_cls(how[len("from_hyperedge_list(create_using="):-1]))
+            return xgi.from_hyperedge_list(lst, create_using=_cu(how.split(" ")[0]), **mo)
         if how == "to_hypergraph(list)":
             return xgi.to_hypergraph(lst)
         if how == "to_dihypergraph(list)":
             return xgi.to_dihypergraph(lst)
+        if how == "to_simplicial_complex(list)":
+            return xgi.to_simplicial_complex(lst)
         return _cls(how.split("(")[0])(lst)
 
     def compare(back):
@@ -223,6 +272,8 @@ def p_hyperedge_list(c, rng):
         exp = _pos_obs(src)
         gpos = _pos_obs(got)
         c.mon.note(f"pair:hyperedge_list:{c.cls}" if not c.override else f"again:{c.override}")
+        if mo:
+            c.mon.note("variant:from_hyperedge_list:max_order-not-truncating")
         if src.inc:
             c.mon.nontrivial(("hyperedge_list", how, c.override, src.cls, sorted(map(repr, src.inc))))
         for clause, detail in O.diff(exp, gpos, O.INC):
@@ -234,19 +285,35 @@ def p_hyperedge_list(c, rng):
         c.again(rng, back, make, compare)
 
     c.guarded(name, trigger, go, how, clause=NO_DH if name == "to_dihypergraph" else "raises")
+    if src.cls == "SimplicialComplex" and top >= 1 and rng.random() < 0.5:
+        # a truncating max_order, by the docstring of add_simplices_from: simplices above the bound are replaced by their subfaces up to the bound.
+        # The list of a complex is closed, so what must come back is every listed simplex of order <= k (member sets of size >= 2 exactly; 0-simplices:
+        # the listed ones must be there, nothing is demanded about further ones - the docstring does not say whether 'subfaces' include them)
+        k = rng.randint(0, top - 1)
+        v = f"from_hyperedge_list(create_using=SimplicialComplex, max_order={k}) (largest order present: {top})"
+
+        def go_trunc():
+            back = xgi.from_hyperedge_list(lst, create_using=xgi.SimplicialComplex, max_order=k)
+            got = O.obs(back)
+            c.mon.ev()
+            c.mon.note("variant:from_hyperedge_list:max_order-truncating" if not c.override else f"again:{c.override}")
+            fam = list(got.mem.values())
+            want = {m for m in src.mem.values() if 2 <= len(m) <= k + 1}
+            have = {m for m in fam if len(m) >= 2}
+            ones_want = {m for m in src.mem.values() if len(m) == 1}
+            ones_have = {m for m in fam if len(m) == 1}
+            allowed = {frozenset([n]) for m in src.mem.values() for n in m}
+            if want != have or len(set(fam)) != len(fam) or not ones_want <= ones_have or not ones_have <= allowed:
+                c.fire(NAMES["hyperedge_list"], "truncating-max_order", "simplices", f"{v}: simplices of size >= 2: {O._sd(want, have)}; 0-simplices: listed {sorted(map(sorted, ones_want), key=repr)}, "
+                       f"returned {sorted(map(sorted, ones_have), key=repr)}", c.witness(f"list: {lst!r}\nreturned: {got.brief()}"))
+
+        c.guarded("hyperedge_list", "truncating-max_order", go_trunc, v)
 
 
 def p_hyperedge_dict(c, rng):
     net, src = c.net, c.src
-    if src.directed:
-        d = net.edges.dimembers(dtype=dict)
-        how = rng.choice(("from_hyperedge_dict(create_using=DiHypergraph)", "DiHypergraph(dict)", "to_dihypergraph(dict)"))
-    elif src.cls == "Hypergraph":
-        d = xgi.to_hyperedge_dict(net)
-        how = rng.choice(("from_hyperedge_dict", "Hypergraph(dict)", "to_hypergraph(dict)"))
-    else:
-        d = xgi.to_hyperedge_dict(net)
-        how = rng.choice(("from_hyperedge_dict", "from_hyperedge_dict(create_using=SimplicialComplex)", "SimplicialComplex(dict)", "from_simplex_dict"))
+    d = net.edges.dimembers(dtype=dict) if src.directed else xgi.to_hyperedge_dict(net)
+    how = rng.choice(HOW_DICT[src.cls])
     name, trigger = NAMES["hyperedge_dict"], src.cls
     if how == "to_dihypergraph(dict)":
         name, trigger = "to_dihypergraph", "create_using-omitted"
@@ -255,13 +322,17 @@ def p_hyperedge_dict(c, rng):
         if how == "from_hyperedge_dict":
             return xgi.from_hyperedge_dict(d)
         if how.startswith("from_hyperedge_dict(create_using="):
-            return xgi.from_hyperedge_dict(d, create_using=_cls(how[len("from_hyperedge_dict(create_using="):-1]))
+            return xgi.from_hyperedge_dict(d, create_using=_cu(how))
         if how == "from_simplex_dict":
             return xgi.from_simplex_dict(d)
+        if how.startswith("from_simplex_dict(create_using="):
+            return xgi.from_simplex_dict(d, create_using=_cu(how))
         if how == "to_hypergraph(dict)":
             return xgi.to_hypergraph(d)
         if how == "to_dihypergraph(dict)":
             return xgi.to_dihypergraph(d)
+        if how == "to_simplicial_complex(dict)":
+            return xgi.to_simplicial_complex(d)
         return _cls(how.split("(")[0])(d)
 
     def compare(back):
@@ -269,6 +340,7 @@ def p_hyperedge_dict(c, rng):
             c.mon.ev()
             c.fire(name, trigger, NO_DH, f"{how} on the dimembers(dtype=dict) of a DiHypergraph returned a {type(back).__name__}", c.witness(f"dict: {d!r}"))
             return
+        c.mon.note("variant:hyperedge_dict:" + how)
         c.check("hyperedge_dict", trigger, O.expected(src), back, O.INC, how, name=name)
 
     def go():
@@ -433,10 +505,78 @@ def p_hif_dict(c, rng):
     c.guarded("hif_dict", src.cls, go, variant)
 
 
+def _maximal(fam):
+    """Brute force: the member sets that are not a proper subset of another one."""
+    return [m for m in fam if not any(m < o for o in fam)]
+
+
+def p_max_simplices(c, rng):
+    """from_max_simplices(S): exactly S's nodes, exactly S's maximal simplices as edges (each once); a complex built from that hypergraph holds the
+    simplices of S again (closure restores every face of size >= 2; a 0-simplex that is a face of a larger simplex is not a face the class ever
+    generates, so only the maximal 0-simplices are demanded back)."""
+    net, src = c.net, c.src
+    fam = list(src.mem.values())
+    mx = _maximal(fam)
+    has0 = any(len(m) == 1 for m in mx)
+    trigger = "maximal-0-simplex" if has0 else src.cls
+    name = NAMES["max_simplices"]
+
+    def compare(H):
+        got = O.obs(H)
+        c.mon.ev()
+        c.mon.note("pair:max_simplices:SimplicialComplex" if not c.override else f"again:{c.override}")
+        if not c.override:
+            if has0:
+                c.mon.note("feat:maximal-0-simplex")
+            if any(len(m) == 1 for m in fam if m not in mx):
+                c.mon.note("feat:0-simplex-that-is-a-face")
+        if src.inc:
+            c.mon.nontrivial(("max_simplices", c.override, sorted(map(repr, src.inc)), len(src.nodes)))
+        wit = c.witness(f"maximal simplices (brute force): {[sorted(m, key=repr) for m in mx]}\nreturned: {got.brief()}")
+        if got.cls != "Hypergraph":
+            c.fire(name, trigger, "class", f"expected a Hypergraph, got a {got.cls}", wit)
+        if set(got.nodes) != set(src.nodes):
+            c.fire(name, trigger, "node-set", O._sd(set(src.nodes), set(got.nodes)), wit)
+        edges = list(got.mem.values())
+        if sorted(map(repr, map(sorted_key, edges))) != sorted(map(repr, map(sorted_key, mx))):
+            c.fire(name, trigger, "maximal-simplices", f"edges are not exactly the maximal simplices, each once: {O._sd(set(mx), set(edges))} "
+                   f"(counts: {len(mx)} maximal, {len(edges)} edges)", wit)
+        elif got.inc2 != got.inc:
+            c.fire(name, trigger, "maximal-simplices", "memberships of the returned hypergraph disagree with its members", wit)
+        return got
+
+    def closure_back(H, how):
+        back = xgi.SimplicialComplex(H)
+        got = O.obs(back)
+        c.mon.ev()
+        c.mon.note("eval:max_simplices-into-complex" if not c.override else f"again:{c.override}")
+        want = {m for m in fam if len(m) >= 2 or m in mx}
+        have = list(got.mem.values())
+        wit = c.witness(f"{how}\nreturned: {got.brief()}")
+        if set(have) != want or len(have) != len(set(have)):
+            c.fire(f"{name}/SimplicialComplex(Hypergraph)", trigger, "simplices", f"{how}: simplices differ from the source's: {O._sd(want, set(have))}", wit)
+        if set(got.nodes) != set(src.nodes):
+            c.fire(f"{name}/SimplicialComplex(Hypergraph)", trigger, "node-set", O._sd(set(src.nodes), set(got.nodes)), wit)
+
+    def go():
+        H = xgi.from_max_simplices(net)
+        n0 = c.nfired
+        compare(H)
+        if c.nfired == n0:  # (a hypergraph that is already wrong is not sent on)
+            closure_back(H, "SimplicialComplex(from_max_simplices(S))")
+        c.again(rng, H, lambda: xgi.from_max_simplices(net), compare)
+
+    c.guarded("max_simplices", trigger, go, "")
+
+
+def sorted_key(m):
+    return sorted(m, key=repr)
+
+
 RUN = {
     "hyperedge_list": p_hyperedge_list, "hyperedge_dict": p_hyperedge_dict, "bipartite_edgelist": p_bipartite_edgelist,
     "incidence_matrix": p_incidence_matrix, "bipartite_graph": p_bipartite_graph, "dataframe": p_dataframe,
-    "hypergraph_dict": p_hypergraph_dict, "hif_dict": p_hif_dict,
+    "hypergraph_dict": p_hypergraph_dict, "hif_dict": p_hif_dict, "max_simplices": p_max_simplices,
 }
 
 
